@@ -14,9 +14,15 @@ CLAIMS = {'C03': {'text': 'Hazards of the geometry/container layer are enumerate
                  'configurations and type-level witnesses (unsafe set_cpu_extensions, sealed '
                  'InnerPixel, private internals). A scratch Vec that is sliced after a conditional '
                  'resize is grown under len(v) < n for the same n (a capacity or emptiness test '
-                 'leaves it shorter than the slice on a reused Resizer). Does NOT decide in-kernel '
-                 'index bounds, accumulator ranges or allocation failure; UNDECIDED obligations '
-                 'are listed in the evidence and are not proofs.',
+                 'leaves it shorter than the slice on a reused Resizer). Every store through a raw '
+                 'pointer in the kernel, alpha and SIMD-helper modules (store intrinsics, '
+                 'ptr::write, assignments through *mut T: 120 / 49 / 55 sites on x86 / arm / wasm) '
+                 'ends inside the object its pointer was taken from (local array, chunk of '
+                 'chunks_exact_mut(N), one pixel, parameter resolved at the call sites); wrapping '
+                 'products of caller-controlled values are reported with a concrete assignment '
+                 'that satisfies every guard on the path. Does NOT decide in-kernel index bounds, '
+                 'accumulator ranges or allocation failure; UNDECIDED obligations are listed in '
+                 'the evidence and are not proofs.',
          'note': 'Free-atom premise: arguments of the safe API are unconstrained and independent '
                  'of object state; user ImageView impls honour the unsafe trait contract. 32-bit '
                  'usize (wasm) arithmetic is informational only.',
@@ -52,8 +58,10 @@ CLAIMS = {'C03': {'text': 'Hazards of the geometry/container layer are enumerate
                  'the copy needs (so it cannot fail silently). The f32 vertical x86 helpers '
                  'generic over the number of accumulators write SUMS_COUNT * lanes components '
                  'through a raw pointer: every call site passes a chunk of exactly that many '
-                 "components. Does NOT decide that a kernel's inner column loops visit every "
-                 'column.',
+                 'components. Raw stores end inside the object their pointer was taken from '
+                 '(storewidth: the bytes of the chunk / array / pixel are read from the code, '
+                 'offsets and widths from the pointer arithmetic and the intrinsic). Does NOT '
+                 "decide that a kernel's inner column loops visit every column.",
          'note': 'Leaf write event = ImageViewMut::{iter_rows_mut,iter_N_rows_mut,split_by_*_mut}; '
                  'what a kernel does with the rows is not analysed. Zero-size guards are '
                  'recognised as comparisons of width()/height()/crop fields with 0.',
@@ -102,10 +110,13 @@ CLAIMS = {'C03': {'text': 'Hazards of the geometry/container layer are enumerate
                  "same dimensions; the premultiply scratch has the multiplied view's size. "
                  'Resizer::clone carries every non-buffer field over from self (the back-end is '
                  'kept both in cpu_extensions and in mul_div); the scratch buffer is grown under a '
-                 'test of its length, never its capacity. Does NOT decide that writers fill every '
-                 "pixel (C05's kernel-internal part) nor compares runs; no branch on the resize "
-                 'path depends on len()/capacity() of a scratch buffer except the grow test (a '
-                 'reused Resizer takes the same code path as a fresh one).',
+                 'test of its length, never its capacity. Any field of Resizer other than the '
+                 'back-end and the byte buffers is state a later call can observe: a function that '
+                 'rebuilds such state only under a condition must test every parameter the rebuilt '
+                 'value depends on (cache key completeness). Does NOT decide that writers fill '
+                 "every pixel (C05's kernel-internal part) nor compares runs; no branch on the "
+                 'resize path depends on len()/capacity() of a scratch buffer except the grow test '
+                 '(a reused Resizer takes the same code path as a fresh one).',
          'note': 'Writer = callee with a must-write summary (C05) on the scratch parameter.',
          'technique': 'static analysis: write-before-read typestate via dominators + must-write '
                       'summaries; structural matching of the sizing expression (MIR)'},
@@ -174,10 +185,12 @@ CLAIMS = {'C03': {'text': 'Hazards of the geometry/container layer are enumerate
                  'offset and re-wrap parts with their own offset/extent on the other axis; '
                  'slice-based splits cut rows of self.width pixels; UnsafeImageMut handles are '
                  'confined to the default mutable splits; all arithmetic asserts in split code '
-                 'classified. Does NOT decide that part sizes differ by at most one and sum to the '
-                 'band (loop-carried arithmetic); every part a split builds itself is placed at a '
-                 'running sum of the previous sizes (index times own size is a violation when '
-                 'sizes differ).',
+                 'classified. The split loops run num_parts iterations (any equivalent range) with '
+                 'one push each; products of caller-controlled values on the way to the part '
+                 'boundaries do not wrap (witness search on the guards). Does NOT decide that part '
+                 'sizes differ by at most one and sum to the band (loop-carried arithmetic); every '
+                 'part a split builds itself is placed at a running sum of the previous sizes '
+                 '(index times own size is a violation when sizes differ).',
          'note': 'Exact-tiling arithmetic inside the loops is listed as UNDECIDED obligations.',
          'technique': 'static analysis: guard-fact entailment on Some-return paths, loop structure '
                       '(dominators/natural loops), argument-role comparison across wrappers',
@@ -193,7 +206,10 @@ CLAIMS = {'C03': {'text': 'Hazards of the geometry/container layer are enumerate
                  'height_scale)/multiplicity > c >= 1, i.e. never when one dimension already '
                  "matches.; the arm that skips both passes and ignores the copy routine's result "
                  "establishes exactly the copy's success conditions; crate-local predicates in "
-                 'these decisions are inlined one level. Bit equality itself is not decided.',
+                 'these decisions are inlined one level. Bit equality itself is not decided. With '
+                 'fit_into_destination and equal aspect ratios the fitted box is the whole source '
+                 'exactly (the approximately-equal branch; fl(fl(w/h)*h) is one ulp off w for '
+                 'about 8 % of the sizes).',
          'note': 'Facts are branch conditions on dominating edges (no path enumeration).',
          'technique': 'static analysis: edge-dominance facts + must-write summaries on MIR'},
  'C01': {'text': 'Decided on all paths: the geometry formulas of precompute_coefficients are, as '
@@ -227,9 +243,10 @@ CLAIMS = {'C03': {'text': 'Hazards of the geometry/container layer are enumerate
                  'the unchecked column index is the pretabulated entry itself, clamped with '
                  'width-1 of the view whose rows are read (a bound that depends on the crop box is '
                  'a violation); the stored pixel is a loaded pixel with no arithmetic; no alpha '
-                 'code is reachable. Does NOT decide floating-point accumulation error of the row '
-                 'position nor that the two iter_rows_with_step implementations skip rows '
-                 'identically.',
+                 'code is reachable. resample_nearest takes no state from the Resizer except '
+                 'through a cache whose key covers every input of the cached value. Does NOT '
+                 'decide floating-point accumulation error of the row position nor that the two '
+                 'iter_rows_with_step implementations skip rows identically.',
          'note': 'Clamp adequacy is a stated-belief rule (a bound equal to the row length is '
                  "reachable by the author's own reckoning).",
          'technique': 'static analysis: polynomial normal form of MIR expressions + kind inference '
@@ -243,8 +260,9 @@ CLAIMS = {'C03': {'text': 'Hazards of the geometry/container layer are enumerate
                  'dimension is the full source dimension; get_crop_box passes (src w, src h, dst '
                  'w, dst h) in order.; a crop dimension computed from the ratios is assigned only '
                  'under a strict ratio comparison (or after the approximately-equal branch) or '
-                 'clamped, so fl(ratio*height) cannot exceed the source width. Does NOT decide '
-                 'aspect accuracy nor sizes beyond 2^26 per side.',
+                 'clamped, so fl(ratio*height) cannot exceed the source width. No integer '
+                 'arithmetic on the way to the fitted box can wrap. Does NOT decide aspect '
+                 'accuracy nor sizes beyond 2^26 per side.',
          'note': 'Local names crop_width/crop_height/centering are anchors (CHECK-ERROR/UNDECIDED '
                  'if renamed).',
          'technique': 'static analysis: polynomial normal form + data-dependence and branch-wise '
@@ -260,8 +278,9 @@ CLAIMS = {'C03': {'text': 'Hazards of the geometry/container layer are enumerate
                  'transfer function maps 0 to 0 and 1 to 1, its pieces meet at every breakpoint '
                  '(jump <= 1e-6; > 2 16-bit steps is a violation) and the backward function undoes '
                  'the forward one at the breakpoints (interval evaluation at constant points). '
-                 'Does NOT decide that every entry equals the rounded transfer function nor the '
-                 '8->16->8 round trip as such.',
+                 'Every Ok of PixelComponentMapper::map that does not follow a map_image call '
+                 'comes after the comparison of the dimensions. Does NOT decide that every entry '
+                 'equals the rounded transfer function nor the 8->16->8 round trip as such.',
          'note': 'powf/exp/round/clamp transfer functions are part of the trusted tables; const '
                  'generic SIZE is assumed >= 2.',
          'technique': 'static analysis: abstract interpretation (monotonicity x interval, input '
